@@ -122,6 +122,9 @@ def gen_calls(rng, lat, lspec, quick):
         f = rng.choice(kinds)
         cplx = rng.random() < 0.3
         ph = rng.random() < 0.4
+        # a shared explicit category now and then: different kinds of terms end up in one container
+        # (CouplingTerms converted to MultiCouplingTerms, add_coupling_term on a MultiCouplingTerms, ...)
+        cat = rng.choice([None, None, None, 'c0', 'c1'])
         if f == 'add_onsite':
             u = rng.randrange(nu)
             site = lat.unit_cell[u]
@@ -129,7 +132,7 @@ def gen_calls(rng, lat, lspec, quick):
             if not good:
                 continue
             st = rand_array_strength(rng, Ls, cplx) if rng.random() < 0.4 else oc.rand_strength(rng, cplx)
-            calls.append({'f': f, 'strength': st, 'u': u, 'op': rng.choice(good), 'plus_hc': ph})
+            calls.append({'f': f, 'strength': st, 'u': u, 'op': rng.choice(good), 'plus_hc': ph, 'category': cat})
         elif f == 'add_coupling':
             u1, u2 = rng.randrange(nu), rng.randrange(nu)
             maxd = [min(2 if a == 0 else 1, Ls[a] if bc[a] == 'periodic' or not finite else Ls[a] - 1) for a in range(dim)]
@@ -143,8 +146,16 @@ def gen_calls(rng, lat, lspec, quick):
                 continue
             ops = oc.pick_ops(rng, [lat.unit_cell[u1], lat.unit_cell[u2]])
             st = rand_array_strength(rng, shape, cplx) if rng.random() < 0.35 else oc.rand_strength(rng, cplx)
+            # an explicit operator string (bosonic operators only; must exist on every site of the unit cell)
+            ostr = None
+            s1, s2 = lat.unit_cell[u1], lat.unit_cell[u2]
+            if not s1.op_needs_JW(ops[0]) and not s2.op_needs_JW(ops[1]) and rng.random() < 0.25:
+                cands = ['Id'] + [c for c in ('Sz', 'Sigmaz', 'N', 'JW')
+                                  if all(c in s.opnames and oc.neutral([(s, c)]) and s.hc_ops.get(c) == c
+                                         for s in lat.unit_cell)]
+                ostr = rng.choice(cands)
             calls.append({'f': f, 'strength': st, 'u1': u1, 'op1': ops[0], 'u2': u2, 'op2': ops[1], 'dx': dx,
-                          'op_string': None, 'plus_hc': ph})
+                          'op_string': ostr, 'plus_hc': ph, 'category': cat})
         elif f == 'add_multi_coupling':
             n_ops = rng.randint(3, 4)
             opsdx = []
@@ -163,7 +174,7 @@ def gen_calls(rng, lat, lspec, quick):
             ops = oc.pick_ops(rng, sites)
             st = rand_array_strength(rng, shape, cplx) if rng.random() < 0.25 else oc.rand_strength(rng, cplx)
             calls.append({'f': f, 'strength': st, 'ops': [[o, d, u] for o, (d, u) in zip(ops, opsdx)],
-                          'plus_hc': ph, 'switchLR': rng.choice(['middle_i', 'middle_op'])})
+                          'plus_hc': ph, 'switchLR': rng.choice(['middle_i', 'middle_op']), 'category': cat})
         elif f == 'add_onsite_term':
             i = rng.randrange(N)
             site = mps_sites[i]
@@ -188,7 +199,7 @@ def gen_calls(rng, lat, lspec, quick):
                 if between and all(cand in s.opnames and oc.neutral([(s, cand)]) for s in list(lat.unit_cell) + between):
                     strs.append(cand)
             calls.append({'f': f, 'strength': oc.rand_strength(rng, cplx), 'i': i, 'j': j, 'op_i': ops[0],
-                          'op_j': ops[1], 'op_string': rng.choice(strs), 'plus_hc': ph})
+                          'op_j': ops[1], 'op_string': rng.choice(strs), 'plus_hc': ph, 'category': cat})
         elif f == 'add_multi_coupling_term':
             n_ops = rng.randint(2, 4)
             hi = N - 1 if finite else N + 2
@@ -203,7 +214,7 @@ def gen_calls(rng, lat, lspec, quick):
                 continue
             sw = rng.choice(['middle_i', 'middle_op', rng.randint(ijkl[0], ijkl[-1])])
             calls.append({'f': f, 'strength': oc.rand_strength(rng, cplx), 'ijkl': ijkl, 'ops': ops,
-                          'op_string': ['Id'] * (n_ops - 1), 'plus_hc': ph, 'switchLR': sw})
+                          'op_string': ['Id'] * (n_ops - 1), 'plus_hc': ph, 'switchLR': sw, 'category': cat})
         elif f == 'add_exp':
             u = rng.randrange(nu)
             subs = None
@@ -221,10 +232,15 @@ def gen_calls(rng, lat, lspec, quick):
                 continue
             ops = oc.pick_ops(rng, [site, site])
             lam_vals = [Fraction(1, 2), Fraction(1, 4), Fraction(3, 4), Fraction(-1, 2)]
+
+            def one_lam():
+                # decay factors may be complex (plus_hc has to conjugate them as well)
+                im = rng.choice([Fraction(1, 2), Fraction(-1, 4), Fraction(1, 4)]) if rng.random() < 0.4 else 0
+                return [oc.fr_str(rng.choice(lam_vals)), oc.fr_str(im)]
             if rng.random() < 0.3:
-                lam = [[oc.fr_str(rng.choice(lam_vals)), 0] for _ in range(N)]
+                lam = [one_lam() for _ in range(N)]
             else:
-                lam = [oc.fr_str(rng.choice(lam_vals)), 0]
+                lam = one_lam()
             calls.append({'f': f, 'strength': oc.rand_strength(rng, cplx), 'lambda': lam, 'op_i': ops[0], 'op_j': ops[1],
                           'subsites': subs, 'subsites_start': subs_start, 'op_string': None, 'plus_hc': ph})
             has_exp = True
@@ -238,7 +254,8 @@ def gen_calls(rng, lat, lspec, quick):
             if site.op_needs_JW(ops[0]) or site.op_needs_JW(ops[1]):
                 continue
             i = rng.choice(subs) if subs is not None else rng.randrange(N)
-            lam = [oc.fr_str(rng.choice([Fraction(1, 2), Fraction(1, 4), Fraction(-1, 2)])), 0]
+            lam = [oc.fr_str(rng.choice([Fraction(1, 2), Fraction(1, 4), Fraction(-1, 2)])),
+                   oc.fr_str(rng.choice([Fraction(1, 2), Fraction(-1, 4)]) if rng.random() < 0.4 else 0)]
             calls.append({'f': f, 'strength': oc.rand_strength(rng, cplx), 'lambda': lam, 'op_i': ops[0], 'op_j': ops[1],
                           'i': i, 'subsites': subs, 'op_string': None, 'plus_hc': ph})
             has_exp = True
